@@ -37,7 +37,9 @@ type hostEnv struct {
 	vm     *runtime.VM
 }
 
-func (h *hostEnv) log(format string, a ...any) { *h.events = append(*h.events, fmt.Sprintf(format, a...)) }
+func (h *hostEnv) log(format string, a ...any) {
+	*h.events = append(*h.events, fmt.Sprintf(format, a...))
+}
 
 // newVM builds a VM on the compiled program with the harness hosts (runs @init).
 func (h *hostEnv) newVM(prog compiler.CompileOutput, limits runtime.CoreLimits) *runtime.VM {
@@ -61,6 +63,8 @@ type schedCase struct {
 	// (0: 20000). Horizon: step cap per execution (0: 60000).
 	PollBudget int
 	Horizon    int
+	// LockedOutput: the host's output sink takes a lock per write (a scheduling point).
+	LockedOutput bool
 }
 
 // exploreCase explores one schedCase (or one shard of its level-1 subtrees) and reports.
@@ -82,6 +86,9 @@ func exploreCase(sc schedCase, tier string, shard, nshards int, r *Result) {
 	runOnce := func() execObs {
 		var o execObs
 		rc := &rec{}
+		if sc.LockedOutput {
+			rc.outLock = newHostLock()
+		}
 		var events []string
 		budget, horizon := sc.PollBudget, sc.Horizon
 		if budget == 0 {
